@@ -199,6 +199,23 @@ def run(prog, rep, tier):
                'is lost although Ok(()) is returned', body.loc(wb.idx))
     if cnt_w == 0:
         rep.ob('R12.6', True, 'R12.6|%s|no-raw-write' % body.nkey, 'no raw Write::write in linear_extract: transfers go through io::copy / write_all', body.loc())
+    # R12.7 a block of a registered file is never drained: the copy into io::sink() is reachable only through a None outcome of the lookups
+    # (id -> name, name -> writer); no other condition (a counter, a flag set elsewhere) can divert a registered block to the sink
+    sinks = [c for c in copies if 'Sink' in c.term.cargs.split(',')[-1]]
+    if fc is not None and sinks and gets:
+        none_edges = []
+        for sbb2, si2 in arm_of_enum_switch(prog, body, adt='std::option::Option'):
+            o2 = origins(body, [si2['place'][0]])
+            if any(g.idx in o2.calls for g in gets) or any(body.blocks[c2].term.cmethod in ('get_mut', 'and_then') and body.dominates(gets[0].idx, c2) for c2 in o2.calls):
+                nt = enum_arm_target(si2, 'None')
+                if nt is not None:
+                    none_edges.append((sbb2, nt))
+        r7 = reachable_ps(body, fc, removed_edges=none_edges)
+        bad7 = [body.loc(c.idx) for c in sinks if c.idx in r7]
+        rep.ob('R12.7', bool(none_edges) and not bad7, 'R12.7|%s|drain-only-when-not-registered' % body.nkey,
+               'the block is drained to io::sink() only when its id is not registered / its name has no writer' if (none_edges and not bad7) else
+               'a FileContent block can be drained to io::sink() although its id is registered and a writer exists for its name (%s): content of a chosen file is dropped '
+               'while Ok(()) is returned' % (', '.join(bad7) or 'lookup outcomes not found'), body.loc(fc))
     # R12.3 exact consumption (flag-sensitive must-pass-through)
     if fc is not None and copies:
         r = reachable_ps(body, fc, removed_blocks=[c.idx for c in copies])
